@@ -8,7 +8,7 @@ pub struct Byte32 { b: [u8; 32] }
 impl View for Byte32 { type V = Seq<u8>; uninterp spec fn view(&self) -> Seq<u8>; }
 impl Clone for Byte32 {
     #[verifier::external_body]
-    fn clone(&self) -> (r: Byte32) ensures r@ == self@ { unimplemented!() }
+    fn clone(&self) -> (r: Byte32) ensures r == *self { unimplemented!() }
 }
 impl vstd::std_specs::cmp::PartialEqSpecImpl for Byte32 {
     open spec fn obeys_eq_spec() -> bool { true }
@@ -28,7 +28,7 @@ pub struct H256 { b: [u8; 32] }
 impl View for H256 { type V = Seq<u8>; uninterp spec fn view(&self) -> Seq<u8>; }
 impl Clone for H256 {
     #[verifier::external_body]
-    fn clone(&self) -> (r: H256) ensures r@ == self@ { unimplemented!() }
+    fn clone(&self) -> (r: H256) ensures r == *self { unimplemented!() }
 }
 impl vstd::std_specs::cmp::PartialEqSpecImpl for H256 {
     open spec fn obeys_eq_spec() -> bool { true }
